@@ -63,6 +63,8 @@ vars == <<starts, act, motif, bg, steps, lastiter>>
 Spec == Init /\ [][Next]_vars
 
 MotifIsRecomputation == motif = MotifOf(Data, W, K, ActSeq(act), StartsSeq(act, starts), -1)
+\* the cheap form used by the trace specification is the definition
+BgSame == BgCountsFrom(DataCounts(Data, K), Data, W, K, ActSeq(act), StartsSeq(act, starts)) = BgCountsOf(Data, W, K, ActSeq(act), StartsSeq(act, starts))
 BgIsRecomputation    == bg = BgCountsOf(Data, W, K, ActSeq(act), StartsSeq(act, starts))
 InRange == StartsInRange(Data, W, ActSeq(act), StartsSeq(act, starts))
 OopsAllActive == Mode = "oops" => act = 0..(N - 1)
